@@ -58,8 +58,31 @@ def bar_grid(start: datetime, n_minutes: int, k: int) -> list:
     return out
 
 
-def instants(spec: dict, t0: datetime, horizon: datetime) -> set:
-    """The point-like part of the denotation (everything except ranges) restricted to instants <= horizon."""
+def off_grid_periods(spec: dict, k) -> list:
+    """Periods of a period(s) spec whose due times are not all bar timestamps of a k-minute grid (period or pending delay
+    not a whole number of bars). What such a period denotes on that grid is not settled by the property text (never / when a
+    due time happens to be a bar / on the next bar), so it is judged three-valued: see may_bars()."""
+    if k is None or spec["kind"] not in ("period", "periods"):
+        return []
+    periods = [spec["period"]] if spec["kind"] == "period" else list(spec["periods"])
+    if int(spec.get("pending", 0)) % k != 0:
+        return [int(p) for p in periods]
+    return [int(p) for p in periods if int(p) % k != 0]
+
+
+def may_bars(spec: dict, grid: list, first_bar: int = 0, k=None) -> set:
+    """Bars on which an off-grid period MAY fire without that being an error: every bar at or after its first due time."""
+    off = off_grid_periods(spec, k)
+    bars = grid[first_bar:]
+    if not off or not bars:
+        return set()
+    first_due = bars[0] + timedelta(minutes=int(spec.get("pending", 0)) + min(off))
+    return {b for b in bars if b >= first_due}
+
+
+def instants(spec: dict, t0: datetime, horizon: datetime, k=None) -> set:
+    """The point-like part of the denotation (everything except ranges) restricted to instants <= horizon. With a bar
+    interval k, periods that are off that grid contribute nothing here (see may_bars)."""
     kind = spec["kind"]
     if kind == "at_time":
         return {parse_time(spec["time"])}
@@ -68,8 +91,11 @@ def instants(spec: dict, t0: datetime, horizon: datetime) -> set:
     if kind in ("period", "periods"):
         periods = [spec["period"]] if kind == "period" else list(spec["periods"])
         pending = timedelta(minutes=int(spec.get("pending", 0)))
+        off = off_grid_periods(spec, k)
         out = set()
         for p in periods:
+            if int(p) in off:
+                continue
             out |= set(due_times(t0, int(p), pending, horizon))
         if spec.get("immediate", False):
             out.add(t0)
@@ -97,7 +123,7 @@ def ranges_of(spec: dict) -> list:
     return []
 
 
-def denoted_bars(spec: dict, grid: list, first_bar: int = 0) -> list:
+def denoted_bars(spec: dict, grid: list, first_bar: int = 0, k=None) -> list:
     """Sorted list of bar timestamps (members of grid[first_bar:]) on which the trigger must fire."""
     if spec["kind"] not in KINDS:
         raise ValueError("unknown trigger kind " + str(spec["kind"]))
@@ -108,7 +134,7 @@ def denoted_bars(spec: dict, grid: list, first_bar: int = 0) -> list:
     if spec["kind"] in ("range", "ranges"):
         rs = ranges_of(spec)
         return [b for b in bars if any(a <= b < e for a, e in rs)]
-    pts = instants(spec, t0, horizon)
+    pts = instants(spec, t0, horizon, k)
     return [b for b in bars if b in pts]
 
 
